@@ -19,13 +19,15 @@ const (
 	KFunc
 	KTuple
 	KVoid
+	KInt  // Go int: only len(xs), integer literals, comparisons and + - * (Coq Z)
+	KList // variadic parameter / slice of a supported type, read-only (Coq list)
 )
 
 type Type struct {
 	K      Kind
 	S      *Struct
 	Params []Type // KFunc
-	Elems  []Type // KFunc: one result; KTuple: components
+	Elems  []Type // KFunc: one result; KTuple: components; KList: element type
 }
 
 type Field struct {
@@ -51,7 +53,10 @@ var (
 	tV3    = Type{K: KVec3}
 	tV4    = Type{K: KVec4}
 	tVoid  = Type{K: KVoid}
+	tInt   = Type{K: KInt}
 )
+
+func tList(elem Type) Type { return Type{K: KList, Elems: []Type{elem}} }
 
 func tFunc(res Type, params ...Type) Type { return Type{K: KFunc, Params: params, Elems: []Type{res}} }
 
@@ -73,6 +78,10 @@ func (t Type) String() string {
 		return "func"
 	case KTuple:
 		return "tuple"
+	case KInt:
+		return "int"
+	case KList:
+		return "[]" + t.Elems[0].String()
 	}
 	return "void"
 }
@@ -84,7 +93,7 @@ func (t Type) eq(o Type) bool {
 	switch t.K {
 	case KStruct:
 		return t.S == o.S
-	case KFunc, KTuple:
+	case KFunc, KTuple, KList:
 		if len(t.Params) != len(o.Params) || len(t.Elems) != len(o.Elems) {
 			return false
 		}
@@ -133,6 +142,10 @@ func (t Type) coq(m *Module) string {
 			ps = append(ps, paren(p.coq(m)))
 		}
 		return strings.Join(ps, " * ")
+	case KInt:
+		return "Z"
+	case KList:
+		return "list " + paren(t.Elems[0].coq(m))
 	}
 	return "unit"
 }
@@ -211,6 +224,15 @@ func (c *fileCtx) resolveType(e ast.Expr) (t Type, ptr bool, err error) {
 			return t, false, c.errf(e, "unsupported generic instantiation (only [float64])")
 		}
 		return c.resolveType(e.X)
+	case *ast.Ellipsis: // variadic parameter: a read-only list
+		et, p, err := c.resolveType(e.Elt)
+		if err != nil {
+			return t, false, err
+		}
+		if p {
+			return t, false, c.errf(e, "unsupported variadic parameter of pointers")
+		}
+		return tList(et), false, nil
 	case *ast.FuncType:
 		ft := Type{K: KFunc}
 		for _, f := range e.Params.List {
@@ -279,6 +301,15 @@ func (c *fileCtx) structOf(p *Package, name string, ts *ast.TypeSpec, st *ast.St
 		return s, nil
 	}
 	owner := c.w.ModByPath[p.ImportPath]
+	for _, m := range c.w.Mods { // a module that claims the type with a `type` line owns its Record
+		if m.ImportPath == p.ImportPath {
+			for _, tn := range m.Types {
+				if tn == name {
+					owner = m
+				}
+			}
+		}
+	}
 	if owner == nil {
 		return nil, c.errf(ts, "struct %s.%s: package %s is not a module of the spec (add a `module` line for it)", filepath.Base(p.Dir), name, p.Dir)
 	}
